@@ -321,7 +321,7 @@ def gen_C03(o, rng, tier):
         u = list(range(nn + 2))
         for k in range(0, nn + 3):
             for seq in itertools.islice(itertools.product(u, repeat=k), 0, 400 if tier == "quick" else 4000):
-                for pulls in (0, 1):
+                for pulls in (0, 1, 2):      # 2: instrumented source that understates its size_hint
                     o.case(m0=nn, m1=nn, s0=nn, s1=nn)
                     xs = ",".join(f"{o.k(c)}={o.v()}" for c in seq)
                     o.op(f"m0 from_iter {pulls} [{xs}]", test=True)
@@ -515,6 +515,7 @@ def gen_C06(o, rng, tier):
                   f"{reg} entry {{k{c}}} [] o.into_mut", f"{reg} entry {{k{c}}} [] od:{{v}}"]
         t += [f"{reg} iter {k} 1 nhldDcnx" for k in ("iter", "keys", "values", "iter_mut", "values_mut")]
         t += [f"{reg} clone m1", f"{reg} eq m1", f"{reg} fmt debug", f"{reg} fmt debug#", f"{reg} fmt display",
+              f"{reg} fmt display>", f"{reg} fmt display#", f"{reg} fmt debug>",
               f"{reg} into_iter pairs 1 drop", f"{reg} from_iter 0 [{{k0}}={{v}}]",
               f"{reg} gdm 1 [q:{u[0]}#0,q:{u[-1]}#0]", f"{reg} gdm 1 []"]
         return t
@@ -536,6 +537,7 @@ def gen_C06(o, rng, tier):
                 o.op("s0 iter nlhcnx")
                 o.op("s0 fmt debug")
                 o.op("s0 fmt display")
+                o.op("s0 fmt display>")
                 o.op("s0 get q:0#0")
                 o.op("s0 sub s1 s1")
                 o.op("s0 clone s1")
@@ -823,7 +825,7 @@ def gen_C16(o, rng, tier):
             if len(seqs) > cap:
                 seqs = rng.sample(seqs, cap)
             for seq in seqs:
-                for pulls in (1, 0):
+                for pulls in (1, 0, 2):
                     o.case(m0=nn, m1=nn, s0=nn, s1=nn)
                     xs = ",".join(f"{o.k(c)}={o.v()}" for c in seq)
                     o.op(f"m0 from_iter {pulls} [{xs}]", test=True)
@@ -904,7 +906,7 @@ def gen_C19(o, rng, tier):
                 build_map(o, "m0", lay, via_removal=variant)
                 build_set(o, "s0", lay)
                 build_set(o, "s1", list(reversed(lay))[:2])
-                for f in ("debug", "debug#", "display"):
+                for f in ("debug", "debug#", "display", "display>", "display#", "debug>"):
                     o.op(f"m0 fmt {f}", test=True)
                     o.op(f"s0 fmt {f}", test=True)
                 for kind in ("iter", "keys", "values", "iter_mut", "values_mut"):
